@@ -179,6 +179,35 @@ def _wf_payload(cmd, p):
     return bool(re.fullmatch(r"[a-z0-9]{1,12}", cmd))
 
 
+def _whole_frames(buf, prefix_ok):
+    """the commands of the classic frames `buf` consists of, or None if it is not a sequence of whole, correctly
+    check-summed frames of well-formed messages (prefix_ok: a proper prefix of such a sequence also counts)."""
+    import hashlib
+    cmds, i = [], 0
+    while i < len(buf):
+        if len(buf) - i < 24:
+            return cmds + ["?"] if prefix_ok and bytes.fromhex("e3e1f3e8").startswith(buf[i:i + 4][:4]) or (prefix_ok and buf[i:i + 4] == bytes.fromhex("e3e1f3e8")) else None
+        if buf[i:i + 4] != bytes.fromhex("e3e1f3e8"):
+            return None
+        name = buf[i + 4:i + 16].rstrip(b"\x00")
+        if not re.fullmatch(rb"[a-z0-9]{1,12}", name) or name == b"extmsg":
+            return None
+        n = int.from_bytes(buf[i + 16:i + 20], "little")
+        if n > 1 << 20:
+            return None
+        if len(buf) - i - 24 < n:
+            return cmds + ["?"] if prefix_ok else None
+        pl = buf[i + 24:i + 24 + n]
+        if hashlib.sha256(hashlib.sha256(pl).digest()).digest()[:4] != buf[i + 20:i + 24]:
+            return None
+        cmd = name.decode()
+        if not _wf_payload(cmd, pl):
+            return None
+        cmds.append(cmd)
+        i += 24 + n
+    return cmds
+
+
 def wellformed(verb, a):
     if verb in ("ping", "expect", "reqblock", "close", "pong", "wait", "polltx", "cancelblock", "blockstate", "reqheaders"):
         return True
@@ -279,14 +308,37 @@ def monitor_c14(script, cap=HANDSHAKE_CAP_FALLBACK):
     sent_v = sent_a = False
     hs_extra = 0
     proto = 0
+    rawbuf = b""
     for line in script[1:]:
         op = brv.op_part(line)
         verb, a = _kv(op)
         o, raw, _ = _obs(line)
         if raw in ("dead", "bad-op", "ok"):
             continue
-        if not wellformed(verb, a):
+        if verb == "raw" and "hex" in a:
+            # pieces of a byte stream: well-formed iff, put together, they are whole classic frames of well-formed
+            # messages (a message may reach the node in any number of reads)
+            try:
+                rawbuf += bytes.fromhex(a["hex"]) if a["hex"] != "-" else b""
+            except ValueError:
+                return hits
+            if a.get("nob") == "1":
+                if "crash" in raw:
+                    hits.append(("crash-on-wellformed", f"a piece of a well-formed message aborted the process (`{op[:70]}`)"))
+                    return hits
+                pre = _whole_frames(rawbuf, prefix_ok=True)
+                if (o.get("sync") == "closed") and pre and not any(c in ("pong", "protoconf", "headers") for c in pre):
+                    hits.append(("closed-on-wellformed", f"connection dropped inside a well-formed message delivered in pieces (`{op[:70]}`)"))
+                    return hits
+                continue
+            whole = _whole_frames(rawbuf, prefix_ok=False)
+            rawbuf = b""
+            if not whole or any(c in ("version", "verack", "block", "tx", "headers", "inv", "pong", "protoconf") for c in whole):
+                return hits  # outside the quantifier (or a message whose effects this monitor follows only as `msg`)
+        elif not wellformed(verb, a):
             return hits  # outside the quantifier from here on
+        elif rawbuf:
+            return hits  # a message begun in pieces was left unfinished
         short = op[:70]
         cmd = a.get("cmd") if verb == "msg" else None
         if cmd in ("version", "verack"):
